@@ -5,8 +5,8 @@
 (* - the inputs on which length guards, count-driven loops and per-item       *)
 (* length tables are decided:                                                 *)
 (*   cut k      the first k bytes (every truncation, incl. the empty body)    *)
-(*   set i b    byte i replaced by b in {00, 01, 7F, 80, FF}                  *)
-(*   set2 i     bytes i, i+1 replaced by FF FF and by 00 00 (16-bit counts)   *)
+(*   set i b    byte i replaced by b in {00, 01, 7F, 80, AA, FF}                  *)
+(*   set2 i     bytes i, i+1 replaced by FF FF, AA AA and 00 00 (16-bit counts)   *)
 (*   ins i b    one byte inserted before position i                           *)
 (*   del i      byte i removed                                                *)
 (*   ext k      1..3 bytes appended                                           *)
@@ -19,7 +19,7 @@
 EXTENDS Integers, Sequences, FiniteSets, TLC, Json, CSV, IOUtils
 
 Seeds == ndJsonDeserialize(IOEnv.VERIF_SEEDS)
-Subst == {0, 1, 127, 128, 255}
+Subst == {0, 1, 127, 128, 170, 255}      \* 170 = AA: letters where BCD digits are expected
 
 VARIABLES i, body, kind
 Init == i \in 1..Len(Seeds) /\ body = Seeds[i].body /\ kind = "seed"
@@ -28,7 +28,7 @@ Put(s, k, b) == [s EXCEPT ![k] = b]
 Mutants(s) ==
     {[k |-> "cut", b |-> Sub(s, 1, n)] : n \in 0..(Len(s) - 1)}
     \cup {[k |-> "set", b |-> Put(s, p, v)] : p \in 1..Len(s), v \in Subst}
-    \cup {[k |-> "set2", b |-> Put(Put(s, p, v), p + 1, v)] : p \in 1..(Len(s) - 1), v \in {0, 255}}
+    \cup {[k |-> "set2", b |-> Put(Put(s, p, v), p + 1, v)] : p \in 1..(Len(s) - 1), v \in {0, 170, 255}}
     \cup {[k |-> "ins", b |-> Sub(s, 1, p - 1) \o <<v>> \o Sub(s, p, Len(s))] : p \in 1..(Len(s) + 1), v \in {0, 255}}
     \cup {[k |-> "del", b |-> Sub(s, 1, p - 1) \o Sub(s, p + 1, Len(s))] : p \in 1..Len(s)}
     \cup {[k |-> "ext", b |-> s \o [j \in 1..n |-> 255]] : n \in 1..3}
